@@ -455,13 +455,18 @@ class Result:
             self.known_seen.append(finding)
 
     def finish(self, level="proof"):
-        os.makedirs(os.path.join(VERIF, "evidence"), exist_ok=True)
-        os.makedirs(os.path.join(VERIF, "replays"), exist_ok=True)
+        # a run against a scratch copy of the repository (VERIF_REPO, development aid) must not overwrite the evidence of /repo
+        out_root = VERIF if REPO == "/repo" else CACHE
+        os.makedirs(os.path.join(out_root, "evidence"), exist_ok=True)
+        os.makedirs(os.path.join(out_root, "replays"), exist_ok=True)
+        import glob as _glob
+        for old in _glob.glob(os.path.join(out_root, "replays", "%s-%d-*.json" % (self.prop_id, self.seed))):
+            os.remove(old)          # replays of an earlier run with this seed are stale
         for f in self.known_seen:
             print("KNOWN-FINDING: property=%s %s" % (self.prop_id, f["what_fails"]))
         lines = []
         for i, (what, replay, no_input) in enumerate(self.violations[:20]):
-            path = os.path.join(VERIF, "replays", "%s-%d-%d.json" % (self.prop_id, self.seed, i))
+            path = os.path.join(out_root, "replays", "%s-%d-%d.json" % (self.prop_id, self.seed, i))
             json.dump({"property": self.prop_id, "what": what, "replay": replay}, open(path, "w"), indent=1)
             lines.append("VIOLATION property=%s replay=%s%s" % (self.prop_id, path, " no-failing-input-found" if no_input else ""))
             print("  " + what[:300], file=sys.stderr)
@@ -472,7 +477,7 @@ class Result:
         ev = {"property_id": self.prop_id, "tier": self.tier, "seed": self.seed, "level": level, "coverage": cov,
               "assumptions": self.assumptions, "wall_s": round(time.time() - self.t0, 2),
               "violations": len(self.violations)}
-        json.dump(ev, open(os.path.join(VERIF, "evidence", self.prop_id + ".json"), "w"), indent=1)
+        json.dump(ev, open(os.path.join(out_root, "evidence", self.prop_id + ".json"), "w"), indent=1)
         for l in lines:
             print(l)
         if not lines:
